@@ -275,6 +275,34 @@ class ParserScenario:
     def s_extend_from_slice(self, ex, st, func, args, ty):
         v = obj(st, args[0]); set_model(st, v, tuple(model(st, v)) + tuple(model(st, args[1]))); return [(st, UNIT)]
 
+    def fields_written_by_parser(self):
+        """indices of Reader fields assigned by a body of json_parser.rs, or by a Reader method that such a body (transitively) calls"""
+        ctx = self.ctx
+        bodies = {n: f for n, f in ctx.fns.items() if re.match(r'^(json_parser|reader)::<impl at [^>]*>::\w+$', n)}
+        by_method = {}
+        for n in bodies: by_method.setdefault(n.rsplit('::', 1)[1], []).append(n)
+        blocks = lambda f: (f.blocks.values() if isinstance(f.blocks, dict) else f.blocks)
+        reach = set(n for n in bodies if n.startswith('json_parser::')); work = list(reach)
+        while work:
+            f = bodies[work.pop()]
+            for bb in blocks(f):
+                if bb.term.kind != 'call': continue
+                callee = (bb.term.data.get('func') or '').rsplit('::', 1)[-1]
+                callee = re.sub(r'<.*$', '', callee)
+                for n in by_method.get(callee, []):
+                    if n not in reach and n.startswith('reader::'): reach.add(n); work.append(n)
+        written = set()
+        for n in reach:
+            f = bodies[n]
+            for bb in blocks(f):
+                for s_ in bb.stmts:
+                    if s_.lhs is None: continue
+                    base_ty = f.locals.get(s_.lhs.local, '') or ''
+                    pr = s_.lhs.proj
+                    if 'Reader' in base_ty and len(pr) >= 2 and pr[0][0] == 'deref' and pr[1][0] == 'field': written.add(pr[1][1])
+                    elif 'Reader' in base_ty and len(pr) >= 1 and pr[0][0] == 'field': written.add(pr[0][1])
+        return written
+
     def make_exec(self):
         ctx = self.ctx
         summ = [
@@ -351,6 +379,7 @@ class ParserScenario:
         known = {RDR.index(x) for x in ('bytes', 'current_byte', 'location', 'eof')}
         info['unknown_fields'] = {}
         if len(RDR) > len(known):
+            written = self.fields_written_by_parser()
             try:
                 F = ex.find(r'^reader::<impl at [^>]*>::new$')
                 s0 = State(); ex.new_frame(s0, F, [named(s0, 'R', 'R'), named(s0, 'NAME', 'Option<String>')])
@@ -359,8 +388,14 @@ class ParserScenario:
                     r = obj(done[0], done[0].ret)
                     for i in range(len(RDR)):
                         v = done[0].heap[r.oid].get(('f', None, i))
-                        if i not in known and isinstance(v, (BV, BoolV)) and cval(v.t) is not None:
+                        if i in known or not isinstance(v, (BV, BoolV)) or cval(v.t) is None: continue
+                        if i in written or not arbitrary:
+                            # a field the tokenizer itself writes is *state*: it starts as in a fresh reader and must be restored
                             st.heap[ro][('f', None, i)] = v; info['unknown_fields'][i] = (RDR[i], v)
+                        else:
+                            # a field nothing under next_json_value writes is *configuration* set from outside (a mode switched on
+                            # by the read loop): any value
+                            st.heap[ro][('f', None, i)] = BoolV(z3.Bool('cfg:' + RDR[i])) if isinstance(v, BoolV) else BV(z3.BitVec('cfg:' + RDR[i], v.t.size()), v.signed)
             except Exception:
                 pass
         return st, info
